@@ -1,1 +1,412 @@
-"""Rules for C16 (see DESIGN.md section 5)."""
+"""C16 -- helper factories: escaping, tables, anchors, URIs, EPC layout and limits, factories."""
+import ast
+import decimal
+
+from .. import ev, iso, nf, pat, src, rx
+from ..core import rule, ob, explain, Ob
+from ..ev import PyRaise
+from ..interp import Interp, make_callable, FuncVal, callable_env
+from ..src import Unknown
+from .common import C, need, single
+
+explain('C16', '''Decided (structural): in make_wifi_data, make_mecard_data and make_vcard_data every value that reaches
+the payload through an f-string / format call either passes the escaper of its format (a function str(s).translate(TABLE)),
+or is validated by a regular expression that cannot match a line break and ends in \\Z, or is a constant (taint analysis
+per parameter); the MeCard table maps backslash and ';' (and ':' , '"') to backslash + the same character, the vCard
+tables leave no CR/LF in a value; mailto subject/body pass quote(), the query delimiter is '?' until a parameter has been
+appended and '&' afterwards (typestate over both loops); the geo number formatter equals fixed-point formatting with
+trailing zeros removed on a sample grid (sampled, not exhaustive); _make_epc_qr_data - control code over field lengths,
+amount and encoding number - is interpreted on length-only text models: every documented limit (name 70, IBAN 5..34,
+text 140, reference 35, BIC 8/11, purpose 4, amount 0.01..999999999.99, encoding 1..8 / names) is enforced with
+ValueError on both sides of the boundary, exactly one of text/reference is required, the eleven lines appear in EPC069-12
+order with the character-set number of the codec used, the 331-byte guard follows encoding; make_epc_qr requests level M
+without boosting and guards version > 13; every make_* factory encodes exactly the payload of its *_data function with
+all parameters forwarded. NOT decided: numeric equality of the EPC amount for every Decimal, URI validity, C01 for the
+resulting symbols.''')
+
+
+def _sanitizers(fx):
+    """{function name: table name} for helpers functions of the form `return str(s).translate(TABLE)`."""
+    out = {}
+    for m, q, fn in fx.forest.functions():
+        if m != 'helpers' or '.' in q:
+            continue
+        rets = [s for s in fn.body if isinstance(s, ast.Return)]
+        if len(rets) == 1 and rets[0].value is not None:
+            b = pat.match(rets[0].value, 'str(H_s).translate(H_t)')
+            if b is not None and isinstance(b['s'], ast.Name) and b['s'].id in src.params(fn) and isinstance(b['t'], ast.Name):
+                out[q] = b['t'].id
+    return out
+
+
+def _deps(expr, env_defs, params, depth=0):
+    """Parameters of the outer function that `expr` may depend on (through local definitions)."""
+    out = set()
+    for n in ast.walk(expr):
+        if isinstance(n, ast.Name) and isinstance(n.ctx, ast.Load):
+            if n.id in params:
+                out.add(n.id)
+            elif n.id in env_defs and depth < 6:
+                for d in env_defs[n.id]:
+                    out |= _deps(d, {k: v for k, v in env_defs.items() if k != n.id}, params, depth + 1)
+    return out
+
+
+def _local_defs(fn):
+    defs = {}
+    for n in src.walk_local(fn):
+        if isinstance(n, ast.Assign):
+            for t in n.targets:
+                for nm in (t.elts if isinstance(t, (ast.Tuple, ast.List)) else [t]):
+                    if isinstance(nm, ast.Name):
+                        defs.setdefault(nm.id, []).append(n.value)
+        elif isinstance(n, (ast.For, ast.comprehension)):
+            for nm in ast.walk(n.target):
+                if isinstance(nm, ast.Name):
+                    defs.setdefault(nm.id, []).append(n.iter)
+    return defs
+
+
+def _payload_values(fn):
+    """All interpolated expressions (FormattedValue of f-strings, arguments of str.format) inside fn incl. nested defs,
+    with the function node they occur in."""
+    for n in ast.walk(fn):
+        if isinstance(n, ast.FormattedValue) and not isinstance(src.parent(src.parent(n)), ast.FormattedValue):
+            host = src.enclosing_function(n)
+            if any(isinstance(a, ast.Raise) for a in src.ancestors(n)):
+                continue        # message of an exception, not payload
+            yield n.value, host, n
+        elif isinstance(n, ast.Call) and isinstance(n.func, ast.Attribute) and n.func.attr == 'format' \
+                and isinstance(n.func.value, ast.Constant) and isinstance(n.func.value.value, str):
+            host = src.enclosing_function(n)
+            if any(isinstance(a, ast.Raise) for a in src.ancestors(n)):
+                continue
+            for a in n.args:
+                yield (a.value if isinstance(a, ast.Starred) else a), host, n
+
+
+def _classify(fx, expr, host, outer, sanit, esc_alias, validators):
+    """'const' | ('escaped', table) | ('validated', regex name) | ('raw', deps)"""
+    params = set(src.params(outer))
+    defs = _local_defs(outer)
+    if host is not outer:
+        defs.update(_local_defs(host))
+    hparams = set(src.params(host)) if host is not outer else set()
+
+    def is_escaped(e, depth=0):
+        if isinstance(e, ast.Call):
+            fnm = src.call_name(e)
+            if fnm in esc_alias:
+                return esc_alias[fnm]
+            if fnm in sanit:
+                return sanit[fnm]
+            b = pat.match(e, 'str(H_s).translate(H_t)')
+            if b is not None and isinstance(b['t'], ast.Name):
+                return b['t'].id
+        if isinstance(e, ast.Name) and depth < 4:
+            ds = defs.get(e.id, [])
+            if ds and all(d is not None for d in ds):
+                tabs = set()
+                for d in ds:
+                    if isinstance(d, ast.ListComp):
+                        t = is_escaped(d.elt, depth + 1)
+                    else:
+                        t = is_escaped(d, depth + 1)
+                    tabs.add(t)
+                if len(tabs) == 1 and None not in tabs:
+                    return tabs.pop()
+        return None
+    t = is_escaped(expr)
+    if t:
+        return ('escaped', t)
+    deps = _deps(expr, defs, params | hparams)
+    if not deps:
+        return 'const'
+    # parameters of an inner helper (make_multifield(name, val)): `name` is bound to constants at every call site
+    if host is not outer and deps <= hparams:
+        calls = [c for c in src.calls_in(outer, host.name)]
+        hp = src.params(host)
+        ok = True
+        for d in deps:
+            i = hp.index(d)
+            for c in calls:
+                a = c.args[i] if i < len(c.args) else None
+                if not isinstance(a, ast.Constant):
+                    ok = False
+        if ok and calls:
+            return 'const'
+        return ('raw', {f'{host.name}.{d}' for d in deps})
+    for d in sorted(deps):
+        if d in validators:
+            return ('validated', validators[d])
+    return ('raw', deps)
+
+
+def _validators(fx, fn):
+    """{param: regex name} for parameters guarded by `if not isinstance(p, str) or not RX(p): raise ValueError`."""
+    out = {}
+    for s in src.statements(fn.body):
+        if isinstance(s, ast.If) and any(isinstance(x, ast.Raise) for x in s.body):
+            b = pat.match(s.test, 'not isinstance(H_p, str) or not H_rx(H_p)')
+            if b is not None and isinstance(b['p'], ast.Name) and isinstance(b['rx'], ast.Name):
+                out[b['p'].id] = b['rx'].id
+    return out
+
+
+def _regex_of(fx, name):
+    e = fx.forest.module_assign('helpers', name)
+    b = pat.match(e, 're.compile(H_p).match')
+    need(b is not None and isinstance(b['p'], ast.Constant), f'{name} is not re.compile(<literal>).match')
+    return b['p'].value
+
+
+@rule('C16', 'R1', 25, 'every parameter value that reaches a WIFI / MeCard / vCard payload is escaped, validated or constant')
+def r1(fx):
+    sanit = _sanitizers(fx)
+    need(set(sanit) >= {'_escape_mecard', '_escape_vcard'}, f'escaper functions not recognised: {sanit}')
+    want_table = {'make_wifi_data': '_MECARD_ESCAPE', 'make_mecard_data': '_MECARD_ESCAPE', 'make_vcard_data': '_VCARD_ESCAPE'}
+    informational = {('make_vcard_data', 'lat'), ('make_vcard_data', 'lng')}     # documented as floats
+    for fname, table in want_table.items():
+        fn = fx.fn('helpers', fname)
+        esc_alias = {}
+        for s in fn.body:
+            if isinstance(s, ast.Assign) and isinstance(s.value, ast.Name) and s.value.id in sanit:
+                esc_alias[ast.unparse(s.targets[0])] = sanit[s.value.id]
+        validators = _validators(fx, fn)
+        flows = {}
+        for expr, host, node in _payload_values(fn):
+            c = _classify(fx, expr, host, fn, sanit, esc_alias, validators)
+            if c == 'const':
+                continue
+            key = ast.unparse(expr)
+            params = sorted(_deps(expr, {**_local_defs(fn), **(_local_defs(host) if host is not fn else {})},
+                                  set(src.params(fn)) | (set(src.params(host)) if host is not fn else set())))
+            flows.setdefault(key, (c, node, params))
+        for key, (c, node, params) in sorted(flows.items()):
+            who = ','.join(p for p in params if p in src.params(fn)) or ','.join(params)
+            if c[0] == 'escaped':
+                ok = c[1] in (table, '_VCARD_ESCAPE_NEWLINE' if fname == 'make_vcard_data' else table)
+                yield ob(f'{fname}: {{{key}}} <- {who}', ok, node, got=f'escaped with {c[1]}', want=f'escaped with {table}')
+            elif c[0] == 'validated':
+                yield ob(f'{fname}: {{{key}}} <- {who}', True, node, got=f'validated by {c[1]}', want='escaped or validated')
+            else:
+                if all((fname, p) in informational for p in c[1]):
+                    yield Ob(f'{fname}: {{{key}}} <- {who}', True, f'helpers.{fname}', node.lineno, 'numeric parameter, not escaped (informational)',
+                             'documented as float', False)
+                else:
+                    yield ob(f'{fname}: {{{key}}} <- {who}', False, node, got=f'raw value of {sorted(c[1])} interpolated', want=f'escape({who})')
+    # every parameter of the three builders reaches the payload (none silently dropped)
+    for fname in want_table:
+        fn = fx.fn('helpers', fname)
+        used = {n.id for n in ast.walk(fn) if isinstance(n, ast.Name) and isinstance(n.ctx, ast.Load)}
+        missing = [p for p in src.params(fn) if p not in used]
+        yield ob(f'{fname}: every parameter is used', not missing, fn, got=missing, want=[])
+
+
+@rule('C16', 'R2', 8, 'escape tables: MeCard maps \\ ; : " to backslash + char; vCard tables leave no CR/LF; validators cannot match a line break and end in \\Z')
+def r2(fx):
+    me = C(fx, '_MECARD_ESCAPE', 'helpers')
+    for ch in ('\\', ';', ':', '"'):
+        yield ob(f'MeCard escape of {ch!r}', me.get(ord(ch)) == '\\' + ch, fx.forest.module_assign('helpers', '_MECARD_ESCAPE'),
+                 where='helpers._MECARD_ESCAPE', got=me.get(ord(ch)), want='\\' + ch)
+    extra = {k: v for k, v in me.items() if not (isinstance(v, str) and v == '\\' + chr(k))}
+    yield ob('MeCard table: every entry is backslash + the same character (un-escaping is removal of one backslash)', not extra,
+             fx.forest.module_assign('helpers', '_MECARD_ESCAPE'), where='helpers._MECARD_ESCAPE', got=extra, want={})
+    for name in ('_VCARD_ESCAPE', '_VCARD_ESCAPE_NEWLINE'):
+        t = C(fx, name, 'helpers')
+        bad = []
+        for ch in ('\r', '\n'):
+            v = t.get(ord(ch), ch)
+            if v is not None and ('\r' in v or '\n' in v):
+                bad.append((ch, v))
+        bad += [(chr(k), v) for k, v in t.items() if v is not None and ('\r' in v or '\n' in v) and chr(k) not in '\r\n']
+        yield ob(f'{name}: no CR/LF survives translation', not bad, fx.forest.module_assign('helpers', name), where=f'helpers.{name}', got=bad, want=[])
+    vc = C(fx, '_VCARD_ESCAPE', 'helpers')
+    yield ob('vCard table escapes , and ;', vc.get(ord(',')) == '\\,' and vc.get(ord(';')) == '\\;', fx.forest.module_assign('helpers', '_VCARD_ESCAPE'),
+             where='helpers._VCARD_ESCAPE', got=(vc.get(ord(',')), vc.get(ord(';'))), want=('\\,', '\\;'))
+    fn = fx.fn('helpers', 'make_vcard_data')
+    for p, rxname in sorted(_validators(fx, fn).items()):
+        patn = _regex_of(fx, rxname)
+        tree = rx.parse(patn)
+        yield ob(f'validator of {p}: anchored at \\Z and cannot match CR/LF', rx.ends_with_string_end(tree) is True
+                 and not rx.can_match_newline(tree), fx.forest.module_assign('helpers', rxname), where=f'helpers.{rxname}', got=patn,
+                 want=r'^...\Z without any construct matching \r or \n')
+    j = [s for s in fn.body if isinstance(s, ast.Return)]
+    r = single(j, 'return of make_vcard_data')
+    yield ob('vCard lines are joined with CRLF, BEGIN first, END last', pat.match(r.value, "'\\r\\n'.join(data)") is not None
+             and _list_head(fn, 'data')[:2] == ['BEGIN:VCARD', 'VERSION:3.0'] and _appends(fn, 'data')[-2:] == ["'END:VCARD'", "''"], r,
+             got=(ast.unparse(r.value), _list_head(fn, 'data')[:2], _appends(fn, 'data')[-2:]), want="'\\r\\n'.join(data)")
+
+
+def _list_head(fn, name):
+    for s in fn.body:
+        if isinstance(s, ast.Assign) and ast.unparse(s.targets[0]) == name and isinstance(s.value, ast.List):
+            return [e.value if isinstance(e, ast.Constant) else ast.unparse(e) for e in s.value.elts]
+    return []
+
+
+def _appends(fn, name):
+    out = []
+    for s in fn.body:
+        if isinstance(s, ast.Expr) and isinstance(s.value, ast.Call) and src.call_name(s.value) == f'{name}.append':
+            out.append(ast.unparse(s.value.args[0]))
+    return out
+
+
+@rule('C16', 'R4', 6, 'mailto: texts percent-encoded, ?/& delimiter typestate; geo: fixed-point numbers without trailing zeros')
+def r4(fx):
+    fn = fx.fn('helpers', 'make_make_email_data')
+    vals = list(_payload_values(fn))
+    quoted = [ast.unparse(e) for e, h, n in vals if pat.match(e, 'quote(val.encode("utf-8"))') is not None]
+    loops = [s for s in fn.body if isinstance(s, ast.For)]
+    need(len(loops) == 2, 'make_make_email_data: two parameter loops expected')
+    l2 = loops[1]
+    keys2 = ast.unparse(l2.iter)
+    yield ob('subject and body pass quote(utf-8 bytes)', len(quoted) == 1 and "('subject', subject)" in keys2 and "('body', body)" in keys2, l2,
+             got=(quoted, keys2), want='quote(val.encode("utf-8")) for subject, body')
+    # typestate: delim becomes '&' only where a parameter was appended with the current delim
+    init = single([s for s in fn.body if isinstance(s, ast.Assign) and ast.unparse(s.targets[0]) == 'delim'], "initial delim")
+    yield ob("delimiter starts as '?'", isinstance(init.value, ast.Constant) and init.value.value == '?', init, got=ast.unparse(init.value), want="'?'")
+    for i, lp in enumerate(loops):
+        assigns = [s for s in src.statements(lp.body) if isinstance(s, ast.Assign) and ast.unparse(s.targets[0]) == 'delim']
+        a = single(assigns, f"delim assignment in loop {i + 1}")
+        blk, idx = nf.block_of(a)
+        used_before = [s for s in blk[:idx] if isinstance(s, ast.Expr) and isinstance(s.value, ast.Call)
+                       and src.call_name(s.value) == 'data.append' and any(isinstance(n, ast.Name) and n.id == 'delim' for n in ast.walk(s.value))]
+        appends_all = [s for s in src.statements(lp.body) if isinstance(s, ast.Expr) and isinstance(s.value, ast.Call)
+                       and src.call_name(s.value) == 'data.append']
+        same_block = all(nf.block_of(s)[0] is blk for s in appends_all)
+        yield ob(f"loop {i + 1}: delim = '&' exactly where a parameter was appended using delim", bool(used_before) and same_block
+                 and isinstance(a.value, ast.Constant) and a.value.value == '&', a,
+                 got=f"`{ast.unparse(a)}` under `{nf.guard_text(nf.guards_of(a, lp))}`; append under `{nf.guard_text(nf.guards_of(appends_all[0], lp)) if appends_all else None}`",
+                 want="same branch as the append that used delim")
+    # geo
+    g = fx.fn('helpers', 'make_geo_data.float_to_str')
+    r = single([s for s in g.body if isinstance(s, ast.Return)], 'return of float_to_str')
+    samples = [0, 0.0, 1, -1, 10, 40.0, -120, 100, 90, 180, -180, 0.5, -0.5, 38.8976763, -77.0365298, 1e-8, 1.23456789e-3, 12.5, 99.99, 100.001,
+               0.1, 0.10000001, 20, 30.25, -0.00000001, 51.4779, 7, 70, 700.07] + list(range(-180, 181, 10)) + [x / 8 for x in range(-40, 41)]
+    bad = []
+    for f in samples:
+        got = ev.ev(r.value, {'f': f})
+        d = decimal.Decimal(repr(float(f))).quantize(decimal.Decimal('0.00000001'))
+        want = format(d, 'f')
+        if '.' in want:
+            want = want.rstrip('0')
+            if want.endswith('.'):
+                want = want[:-1]
+        if want in ('-0',):
+            want = '-0'
+        if got != want:
+            bad.append((f, got, want))
+    yield ob(f'float_to_str on {len(samples)} sample numbers (sampled)', not bad, r, got=bad[:4], want=[])
+    gd = fx.fn('helpers', 'make_geo_data')
+    rr = single([s for s in gd.body if isinstance(s, ast.Return)], 'return of make_geo_data')
+    yield ob('geo payload = geo:<lat>,<lng>', nf.norm(rr.value) == nf.norm(ast.parse("f'geo:{float_to_str(lat)},{float_to_str(lng)}'", mode='eval').body), rr,
+             got=ast.unparse(rr.value), want="f'geo:{float_to_str(lat)},{float_to_str(lng)}'")
+
+
+class Txt(str):
+    """Text abstracted to its length (all characters 'x'); strip/rstrip keep it."""
+
+
+def _epc(fx, it, **kw):
+    genv = callable_env(fx.forest, 'helpers', it, {'decimal': ev.Namespace('decimal', {'Decimal': decimal.Decimal})})
+    f = FuncVal(fx.fn('helpers', '_make_epc_qr_data'), genv, it)
+    args = dict(name='n' * 10, iban='i' * 22, amount=1, text='t' * 5, reference=None, bic=None, purpose=None, encoding=None)
+    args.update(kw)
+    try:
+        return f(**args)
+    except PyRaise as e:
+        return f'raises {e.name}'
+
+
+@rule('C16', 'R5', 60, 'EPC: limits enforced on both sides of each boundary, line order, character-set number, 331-byte guard; level M, no boost, version <= 13')
+def r5(fx):
+    fn = fx.fn('helpers', '_make_epc_qr_data')
+    it = Interp(max_steps=20_000_000)
+    VE = 'raises ValueError'
+    cases = []
+    for n, ok in ((0, False), (1, True), (70, True), (71, False)):
+        cases.append((f'name of {n} characters', dict(name='n' * n), ok))
+    cases.append(('name None', dict(name=None), False))
+    for n, ok in ((4, False), (5, True), (34, True), (35, False)):
+        cases.append((f'IBAN of {n} characters', dict(iban='i' * n), ok))
+    cases.append(('IBAN None', dict(iban=None), False))
+    for n, ok in ((1, True), (140, True), (141, False)):
+        cases.append((f'text of {n} characters', dict(text='t' * n), ok))
+    for n, ok in ((1, True), (35, True), (36, False)):
+        cases.append((f'reference of {n} characters', dict(text=None, reference='r' * n), ok))
+    cases.append(('text and reference', dict(text='t', reference='r'), False))
+    cases.append(('neither text nor reference', dict(text=None, reference=None), False))
+    cases.append(('empty text, no reference', dict(text='', reference=None), False))
+    for n, ok in ((7, False), (8, True), (9, False), (10, False), (11, True), (12, False)):
+        cases.append((f'BIC of {n} characters', dict(bic='b' * n), ok))
+    for n, ok in ((3, False), (4, True), (5, False)):
+        cases.append((f'purpose of {n} characters', dict(purpose='p' * n), ok))
+    for a, ok in (('0', False), ('0.009', False), ('0.01', True), (0.01, True), (1, True), ('999999999.99', True), ('1000000000', False),
+                  ('999999999.991', False), (-1, False), (5.5, True)):
+        cases.append((f'amount {a!r}', dict(amount=a), ok))
+    for e, ok in ((0, False), (1, True), (8, True), (9, False), (-1, False), ('utf-8', True), ('UTF-8', True), ('iso-8859-15', True), ('latin1', False),
+                  ('iso-8859-3', False), (1.0, False)):
+        cases.append((f'encoding {e!r}', dict(encoding=e), ok))
+    for name, kw, ok in cases:
+        got = _epc(fx, it, **kw)
+        good = isinstance(got, bytes) if ok else got == VE
+        yield ob(name, good, fn, got=got if isinstance(got, str) else 'payload', want='payload' if ok else VE)
+    # layout
+    got = _epc(fx, it, name='NAME', iban='IBAN5', amount='12.50', text='TEXT', bic='BICBICBI', purpose='PURP', encoding=2)
+    lines = got.decode('latin1').split('\n') if isinstance(got, bytes) else got
+    want = ['BCD', '002', '2', 'SCT', 'BICBICBI', 'NAME', 'IBAN5', 'EUR12.5', 'PURP', '', 'TEXT']
+    yield ob('EPC line order with unstructured text', lines == want, fn, got=lines, want=want)
+    got = _epc(fx, it, name='NAME', iban='IBAN5', amount=100, text=None, reference='REF', encoding=None)
+    lines = got.decode('latin1').split('\n') if isinstance(got, bytes) else got
+    want = ['BCD', '002', '2', 'SCT', '', 'NAME', 'IBAN5', 'EUR100', '', 'REF']
+    yield ob('EPC line order with structured reference; default character set = first 8-bit codec that fits (2 = ISO-8859-1)', lines == want, fn,
+             got=lines, want=want)
+    encs = single([s for s in fn.body if isinstance(s, ast.Assign) and ast.unparse(s.targets[0]) == 'encodings'], 'encodings tuple')
+    yield ob('EPC character-set list (order = character-set number)', tuple(ev.ev(encs.value, {})) == iso.EPC['encodings'], encs,
+             got=ev.ev(encs.value, {}), want=iso.EPC['encodings'])
+    for k in (1, 2, 5, 8):
+        got = _epc(fx, it, encoding=k)
+        lines = got.decode('latin1').split('\n') if isinstance(got, bytes) else [got]
+        yield ob(f'encoding number {k} is written as the character-set line', len(lines) > 2 and lines[2] == str(k), fn, got=lines[:3], want=str(k))
+    got = _epc(fx, it, name='n' * 70, iban='i' * 34, text='t' * 140, bic='b' * 11, purpose='pppp', amount='999999999.99')
+    yield ob('maximal fields fit the 331-byte limit', isinstance(got, bytes) and len(got) <= 331, fn, got=len(got) if isinstance(got, bytes) else got, want='<= 331')
+    g = [s for s in fn.body if isinstance(s, ast.If) and pat.match(s.test, 'len(data) > 331') is not None and any(isinstance(x, ast.Raise) for x in s.body)]
+    enc_st = [s for s in fn.body if isinstance(s, ast.Assign) and ast.unparse(s.targets[0]) == 'data' and '.encode(encodings[charset - 1])' in ast.unparse(s.value)]
+    yield ob('331-byte guard on the encoded payload', len(g) == 1 and len(enc_st) == 1 and fn.body.index(enc_st[0]) < fn.body.index(g[0]), fn,
+             got=[ast.unparse(x.test) for x in g], want='if len(data) > 331: raise ValueError after encoding')
+    # make_epc_qr
+    mq = fx.fn('helpers', 'make_epc_qr')
+    a = single([s for s in mq.body if isinstance(s, ast.Assign) and ast.unparse(s.targets[0]) == 'qr'], 'qr = segno.make_qr(...) in make_epc_qr')
+    b = pat.match(a.value, "segno.make_qr(_make_epc_qr_data(name, iban, amount, text, reference, bic, purpose, encoding), error='m', boost_error=False)")
+    kw = src.kwargs_of(a.value) if isinstance(a.value, ast.Call) else {}
+    yield ob("make_epc_qr: error level 'm', boost_error=False, all fields forwarded", b is not None, a, got=ast.unparse(a.value)[-60:],
+             want="error='m', boost_error=False")
+    gv = [s for s in mq.body if isinstance(s, ast.If) and pat.match(s.test, 'qr.version > 13') is not None and any(isinstance(x, ast.Raise) for x in s.body)]
+    yield ob('make_epc_qr: version > 13 is refused', len(gv) == 1, mq, got=[ast.unparse(x.test) for x in gv], want='if qr.version > 13: raise ValueError')
+
+
+FACTORIES = {'make_wifi': 'make_wifi_data', 'make_mecard': 'make_mecard_data', 'make_vcard': 'make_vcard_data', 'make_geo': 'make_geo_data',
+             'make_email': 'make_make_email_data'}
+
+
+@rule('C16', 'R6', 5, 'every make_* factory returns segno.make_qr(<its *_data payload>) with every parameter forwarded to the same-named one')
+def r6(fx):
+    for fac, dat in FACTORIES.items():
+        fn = fx.fn('helpers', fac)
+        dfn = fx.fn('helpers', dat)
+        r = single([s for s in fn.body if isinstance(s, ast.Return)], f'return of {fac}')
+        b = pat.match(r.value, 'segno.make_qr(H_p)')
+        need(b is not None and isinstance(b['p'], ast.Call) and src.call_name(b['p']) == dat, f'{fac}: not segno.make_qr({dat}(...))')
+        call = b['p']
+        dparams = src.params(dfn)
+        bound = {}
+        for i, a in enumerate(call.args):
+            bound[dparams[i]] = a
+        for k in call.keywords:
+            bound[k.arg] = k.value
+        bad = [p for p in src.params(fn) if not (isinstance(bound.get(p), ast.Name) and bound[p].id == p)]
+        same_sig = src.params(fn) == dparams and {k: ast.unparse(v) for k, v in src.param_defaults(fn).items()} == \
+            {k: ast.unparse(v) for k, v in src.param_defaults(dfn).items()}
+        yield ob(f'{fac} -> make_qr({dat}(...))', not bad and same_sig, r, got=f'not forwarded: {bad}; same signature: {same_sig}', want='all forwarded, same signature')
